@@ -16,7 +16,8 @@ pub struct C14;
 const NT: usize = 4; // two Stellar assets, the current-source InterchainToken, a harness token without amount checks
 const SLOPPY: usize = 3;
 const NS: usize = 3;
-const NR: usize = 4; // receivers 0..2 are accounts, receiver 3 is the gas service itself
+const NR: usize = 6; // receivers 0..2 are accounts, 3 is the gas service itself, 4 the gas collector, 5 the contract owner
+const SELF_R: usize = 3;
 const START: i128 = 500;
 
 #[derive(Clone, Copy, Debug, Serialize, Deserialize, PartialEq, Eq)]
@@ -87,7 +88,7 @@ impl Property for C14 {
         "C14"
     }
     fn rule(&self) -> &'static str {
-        "proptest histories (<=30 quick / <=60 thorough ops) over 4 tokens (two Stellar asset contracts, one current-source InterchainToken, and a harness token that checks neither sign nor balance, so that the service's own amount checks are what is tested), 3 spenders, 4 receivers (three accounts and the gas service itself): pay_gas, add_gas, collect_fees, refund with amounts 0, -1, 1, small, exact balance, balance+1, i128::MAX (relative to the spender's balance for payments and to the service's balance for payouts), payouts authorised by the collector, by a stranger, by the contract owner, or by nobody. Oracle: per-token running balance = paid + added - collected - refunded, compared with token.balance(service) and all spender/receiver balances after every step; payments need amount > 0 and move exactly that; payouts need the collector and never exceed the balance; one gas service event per movement carrying the same token and amount; refused calls leave the ledger snapshot identical. non-trivial = history touches >= 2 tokens and contains a successful payout; distinct by Debug hash"
+        "proptest histories (<=30 quick / <=60 thorough ops) over 4 tokens (two Stellar asset contracts, one current-source InterchainToken, and a harness token that checks neither sign nor balance, so that the service's own amount checks are what is tested), 3 spenders, 6 receivers (three accounts, the gas service itself, the gas collector, the contract owner): pay_gas, add_gas, collect_fees, refund with amounts 0, -1, 1, small, exact balance, balance+1, i128::MAX (relative to the spender's balance for payments and to the service's balance for payouts), payouts authorised by the collector, by a stranger, by the contract owner, or by nobody. Oracle: per-token running balance = paid + added - collected - refunded, compared with token.balance(service) and all spender/receiver balances after every step; payments need amount > 0 and move exactly that; payouts need the collector and never exceed the balance; one gas service event per movement carrying the same token and amount; refused calls leave the ledger snapshot identical. non-trivial = history touches >= 2 tokens and contains a successful payout; distinct by Debug hash"
     }
     fn assumptions(&self) -> Vec<&'static str> {
         vec![
@@ -106,8 +107,10 @@ impl Property for C14 {
         let env = new_env();
         let gas = deploy_gas(&env);
         let spenders: Vec<Address> = (0..NS).map(|_| Address::generate(&env)).collect();
-        let mut receivers: Vec<Address> = (0..NR - 1).map(|_| Address::generate(&env)).collect();
+        let mut receivers: Vec<Address> = (0..3).map(|_| Address::generate(&env)).collect();
         receivers.push(gas.id.clone());
+        receivers.push(gas.collector.clone());
+        receivers.push(gas.owner.clone());
         let stranger = Address::generate(&env);
         let sender = Address::generate(&env);
         env.mock_all_auths();
@@ -237,7 +240,7 @@ impl Property for C14 {
                     let r = gas.client.try_collect_fees(&receivers[ri], &tok);
                     ok = matches!(r, Ok(Ok(())));
                     if ok {
-                        if ri != NR - 1 {
+                        if ri != SELF_R {
                             rbal[ti][ri] += amount;
                             held[ti] -= amount;
                         }
@@ -265,7 +268,7 @@ impl Property for C14 {
                     let r = gas.client.try_refund(&sstr(&env, "msg"), &receivers[ri], &tok);
                     ok = matches!(r, Ok(Ok(())));
                     if ok {
-                        if ri != NR - 1 {
+                        if ri != SELF_R {
                             rbal[ti][ri] += amount;
                             held[ti] -= amount;
                         }
@@ -304,8 +307,10 @@ impl Property for C14 {
                 for s in 0..NS {
                     ensure_p!(tc.balance(&spenders[s]) == sbal[t][s], "after step {}: spender balance differs from the model", step);
                 }
-                for r in 0..NR - 1 {
-                    ensure_p!(tc.balance(&receivers[r]) == rbal[t][r], "after step {}: receiver balance differs from the model", step);
+                for r in 0..NR {
+                    if r != SELF_R {
+                        ensure_p!(tc.balance(&receivers[r]) == rbal[t][r], "after step {}: receiver balance differs from the model", step);
+                    }
                 }
             }
         }
